@@ -486,3 +486,24 @@ def neighbourhood(base, seed, n, tag="twist"):
         for m in ast_mutants(b["text"], rng, 1):
             out.append({"origin": f"{tag}:{seed}:{b['origin']}", "text": m})
     return out
+
+
+def shared_minmax_elements(pp):
+    """after preprocess: is one BodyAggregateElement OBJECT of a #min/#max aggregate reachable from two statements?
+    (AST.unpool copies shallowly; minmax's simple translation appends to elem.condition in place, so the second unpooled
+    rule sees the literal the first one added - a harmless duplicate literal that the Coq model of minmax does not
+    reproduce; such inputs are outside the model's fragment and are not compared)"""
+    from clingo.ast import ASTType, AggregateFunction
+    from clingo._internal import _ffi
+    seen = {}
+    for k, st in enumerate(pp):
+        if st.ast_type not in (ASTType.Rule, ASTType.Minimize):
+            continue
+        for b in st.body:
+            if b.ast_type == ASTType.Literal and b.atom.ast_type == ASTType.BodyAggregate and \
+                    b.atom.function in (AggregateFunction.Min, AggregateFunction.Max):
+                for e in b.atom.elements:
+                    ident = int(_ffi.cast("uintptr_t", e._rep))  # pylint: disable=protected-access
+                    if seen.setdefault(ident, k) != k:
+                        return True
+    return False
